@@ -342,7 +342,23 @@ class Resolver:
                 continue
             for lab, tgt in s['edges']:
                 if f.dominates(tgt, x['block']) and f.pred(tgt) == [s['block']]:
-                    doms.append('%s=%s' % (show(s['cond'])[:80], lab))
+                    c_ = s['cond']
+                    if lab in (True, False):
+                        # one spelling per test: `!c` under True is `c` under False, `a >= 2` is `a > 1`, `a <= 1` is not `a > 1`
+                        from guards import canon_pred
+                        c_ = canon_pred(c_)
+                        while strip(c_)[0] == 'un' and strip(c_)[1] == 'Not':
+                            c_, lab = strip(c_)[2], not lab
+                        c0 = strip(c_)
+                        if c0[0] == 'bin' and c0[1] in ('Le', 'Lt'):
+                            c_, lab = ('bin', {'Le': 'Gt', 'Lt': 'Ge'}[c0[1]], c0[2], c0[3]), not lab
+                            c_ = canon_pred(c_)
+                        c0 = strip(c_)
+                        if c0[0] == 'bin' and c0[1] in ('Ne', 'Eq') and strip(c0[3])[:2] == ('int', 0) and strip(c0[2])[0] == 'call' and strip(c0[2])[1].endswith('::len') and strip(c0[2])[2]:
+                            # `x.len() == 0` is `x.is_empty()`
+                            doms.append('is_empty(%s)=%s' % (show(strip(c0[2])[2][0])[:70], lab if c0[1] == 'Eq' else (not lab)))
+                            continue
+                    doms.append('%s=%s' % (show(c_)[:80], lab))
         return ' & '.join(doms[-2:]) if doms else ''
 
     def value(self, f, e, depth=0):
